@@ -244,10 +244,16 @@ Proof.
 Qed.
 
 (* ---- cost_bound: primitive calls of one CSI control function ------------------------------------------------------------------------- *)
-Lemma cost_bound_l : forall t p is_start ch n, Inv09 t -> 0 <= n -> nlen (nums p) <= n -> ~ KnownC03_rep t p ch ->
+Lemma rep_limit_le t : Inv09 t -> 1 <= rep_limit t <= tw t * th t /\ rep_limit t <= scr t.
+Proof.
+  intro HI. destruct (scrW_ge t HI) as (HA & _). destruct (scrH_ge t HI) as (HB & _). destruct (inv_facts t HI) as (I1 & I2 & I3 & I4 & _).
+  assert (Hs : tw t * th t <= scr t) by (unfold scr; nia). assert (1 <= tw t * th t) by nia.
+  unfold rep_limit, sat_mul, sat, I32_MAX, I32_MIN. lia.
+Qed.
+Lemma cost_bound_l : forall t p is_start ch n, Inv09 t -> 0 <= n -> nlen (nums p) <= n ->
   0 <= iters (snd (csi_final_c t p is_start ch)) <= 4 * (n + 1) * scr t.
 Proof.
-  intros t p s ch n HI Hn Hl HK. pose proof (bound_1 t n HI Hn) as H1.
+  intros t p s ch n HI Hn Hl. pose proof (bound_1 t n HI Hn) as H1.
   pose proof (eff_scrolls_le t HI) as HE. pose proof (ich_limit_le t HI) as HIC. pose proof (dch_limit_le t HI) as HDC.
   pose proof (il_limit_le t HI) as HIL. pose proof (dl_limit_le t HI) as HDL. pose proof (tab_limit_le t HI) as HT.
   unfold csi_final_c.
@@ -272,11 +278,8 @@ Proof.
     pose proof (check_up_iters t false HI (sat_sub (cy t) (first_or (nums p) 1))). split; [lia|]. apply bound_H; auto; lia. }
   destruct (ch =? 98) eqn:E98.
   { cbn [snd]. unfold rep_c.
-    pose proof (iter_cost_res_iters (first_or (nums p) 1) (fun x => print_char x (print_cell t (last_char p))) print_weight t).
-    split; [lia|]. apply Z.eqb_eq in E98. unfold KnownC03_rep in HK.
-    assert (first_or (nums p) 1 <= tw t * th t) by (destruct (Z_lt_le_dec (tw t * th t) (first_or (nums p) 1)); [exfalso; apply HK; auto|lia]).
-    destruct (scrW_ge t HI) as (HA & _). destruct (scrH_ge t HI) as (HB & _). destruct (inv_facts t HI) as (I1 & I2 & I3 & I4 & _).
-    assert (Hs : tw t * th t <= scr t) by (unfold scr; nia).
+    pose proof (iter_cost_res_iters (Z.min (first_or (nums p) 1) (rep_limit t)) (fun x => print_char x (print_cell t (last_char p))) print_weight t).
+    split; [lia|]. destruct (rep_limit_le t HI) as (HR & Hs).
     assert (Hs2 : scr t <= 4 * (n + 1) * scr t) by nia.
     lia. }
   unfold one; cbn [snd iters]; lia.
@@ -334,28 +337,32 @@ Proof.
 Qed.
 
 (* ---- REP: linear in the parameter ------------------------------------------------------------------------------------------------------------ *)
-Lemma rep_linear_l : forall t c n, (exists t', fst (rep_c t c n) = ROk t') -> iters (snd (rep_c t c n)) = Z.max 0 n.
+Lemma rep_linear_before_fix_l : forall t c n, (exists t', fst (rep_c_before_fix t c n) = ROk t') -> iters (snd (rep_c_before_fix t c n)) = Z.max 0 n.
+Proof. intros t c n. unfold rep_c_before_fix. apply iter_cost_res_linear. Qed.
+(* after the fix: the count is the parameter clamped to one screen *)
+Lemma rep_clamped_l : forall t c n, (exists t', fst (rep_c t c n) = ROk t') -> iters (snd (rep_c t c n)) = Z.max 0 (Z.min n (rep_limit t)).
 Proof. intros t c n. unfold rep_c. apply iter_cost_res_linear. Qed.
 Lemma inv09_init_2_1 : Inv09 (init_term 2 1).
 Proof.
   unfold Inv09, InvG, InvC09, InvX, InvY, first, init_term, margins_ok; cbn. repeat split; try lia. repeat constructor. lia.
 Qed.
 Definition rep_witness_p : pst := set_last (set_nums (init_pst 0 false) [1000]) 65.
-Lemma rep_refuted_l : Inv09 (init_term 2 1) /\ nlen (nums rep_witness_p) <= 7 /\
-  4 * (7 + 1) * scr (init_term 2 1) < iters (snd (csi_final_c (init_term 2 1) rep_witness_p false 98)).
-Proof. split; [exact inv09_init_2_1|]. split; vm_compute; [discriminate|reflexivity]. Qed.
+Lemma rep_before_fix_refuted_l : Inv09 (init_term 2 1) /\ nlen (nums rep_witness_p) <= 7 /\
+  4 * (7 + 1) * scr (init_term 2 1) < iters (snd (rep_c_before_fix (init_term 2 1) (print_cell (init_term 2 1) (last_char rep_witness_p)) (first_or (nums rep_witness_p) 1)))
+  /\ iters (snd (csi_final_c (init_term 2 1) rep_witness_p false 98)) = 2.
+Proof. split; [exact inv09_init_2_1|]. split; [vm_compute; discriminate|]. split; vm_compute; reflexivity. Qed.
 
 (* ---- hex macro repeat groups --------------------------------------------------------------------------------------------------------------- *)
 Lemma hex_macro_t_fst : forall s stt rr rep_rec rep_n rec k, fst (hex_macro_t s stt rr rep_rec rep_n rec k) = hex_macro s stt rr rep_rec rep_n rec.
 Proof.
   induction s as [|ch r IH]; intros stt rr rep_rec rep_n rec k; cbn [hex_macro_t hex_macro]; [reflexivity|].
   destruct stt.
-  - destruct ((ch =? 59) && rr); [apply IH|]. destruct (ch =? 33); apply IH.
+  - destruct ((ch =? 59) && rr); [destruct (push_group rec rep_rec rep_n); [apply IH|reflexivity]|]. destruct (ch =? 33); apply IH.
   - destruct (hex_val c); [|reflexivity]. destruct (hex_val (to_upper ch)); [|reflexivity]. destruct rr; apply IH.
   - destruct (is_digit ch); [apply IH|]. destruct (ch =? 59); [apply IH|reflexivity].
 Qed.
 (* "!3000;41;" : 9 characters, 3009 iterations *)
-Lemma hexmacro_refuted_l : exists s, zlen s < 64 /\ 300 * zlen s < snd (hex_macro_t s HFirst false [] 0 [] 0).
+Lemma hexmacro_refuted_l : exists s, zlen s < 64 /\ 300 * zlen s < snd (hex_macro_t_before_fix s HFirst false [] 0 [] 0).
 Proof. exists [33; 51; 48; 48; 48; 59; 52; 49; 59]. vm_compute. split; reflexivity. Qed.
 
 (* ---- macro recursion ---------------------------------------------------------------------------------------------------------------------------- *)
